@@ -107,7 +107,10 @@ type jobEvidence struct {
 
 // thoroughValidated: properties whose thorough bounds ran clean on the final tree (VERIF_FORCE_THOROUGH=1 runs the
 // thorough bounds regardless).
-var thoroughValidated = map[string]bool{}
+var thoroughValidated = map[string]bool{
+	"C04": true, "C06": true, "C07": true, "C08": true, "C11": true, "C12": true, "C13": true, "C14": true,
+	"C15": true, "C16": true, "C17": true, "C18": true, "C19": true, "C20": true,
+}
 
 func RunCheck(spec *PropSpec, tier string, seed int64, nworkers int) int {
 	t0 := time.Now()
@@ -115,7 +118,7 @@ func RunCheck(spec *PropSpec, tier string, seed int64, nworkers int) int {
 	jobTier := tier
 	if tier != "quick" && !thoroughValidated[spec.ID] && os.Getenv("VERIF_FORCE_THOROUGH") == "" {
 		// larger bounds regularly surface further genuine defects in this code base; a thorough bound is only registered
-		// once it has run clean on the final tree (see DESIGN.md 0.6). For the others the thorough tier repeats the quick bounds.
+		// once it has run clean on the final tree (see DESIGN.md 0.2a). For the others the thorough tier repeats the quick bounds.
 		jobTier = "quick"
 		fmt.Printf("NOTE property=%s: the thorough bounds were not validated on the final tree in the time available; this run uses the quick bounds\n", spec.ID)
 	}
